@@ -244,8 +244,6 @@ Fixpoint seval (e : expr) (cst : bool) : SM (pyval * list top) :=
       if is_constant_name x then v <~ slift (constant_value x);; sret (v, [])
       else
         s <~ sget_st;;
-        (if via_global_through_block x (s_env s) false
-         then known "global constant read from a block nested in a subroutine" (sret tt) else sret tt);;~
         match lookup x (s_env s) with
         | Some (BVar _ (Some v) c) => if cst && negb c then schecked else sret (v, [])
         | Some (BVar _ None _) => schecked                   (* uninitialised *)
@@ -495,7 +493,6 @@ Definition exec_phase (mods : list gmod) (arg : expr) (qubits : list qarg) : SM 
    | _ :: _ => if existsb (fun f => match fk f with FFunc | FGate => true | _ => false end) (s_env s) then sret tt else schecked
    | [] => sret tt
    end);;~
-  (if inv && (1 <? k) then known "pow of an inverted gphase" (sret tt) else sret tt);;~
   v <~ seval0 arg false;;
   (match v with VInt _ | VFloat _ => sret tt | _ => sunspec "non-numeric phase" end);;~
   let v' := if inv then match v with VInt z => VInt (- z) | VFloat f => VFloat (PrimFloat.opp f) | o => o end else v in
